@@ -199,6 +199,10 @@ class SymbolPrinter(PrettyPrinter):  # type: ignore[misc]
     def _print_IndexedSum(self, e: Expr) -> prettyForm:
         return self._print_Function(e, func_name="IndexedSum")
 
+    # pylint: disable-next=invalid-name
+    def _print_IndexedProduct(self, e: Expr) -> prettyForm:
+        return self._print_Function(e, func_name="IndexedProduct")
+
 
 def next_name(name: str) -> str:
     return name + str(next_id(name))
